@@ -461,7 +461,7 @@ class Sim:
             f"wc={int(self.writer._closing)}", f"tc={int(tr.closing)}", f"tl={int(tr.lost)}",
             f"pw={int(self.proto._paused)}", f"dw={dws}",
             f"fr={','.join(frame_tokens(tr.out[self.mark:])) or '-'}",
-            f"buf={len(self.reader._buffer)}", f"eof={int(self.reader._eof)}",
+            f"os={self.writer._output_size}", f"buf={len(self.reader._buffer)}", f"eof={int(self.reader._eof)}",
             f"rw={'-' if rw is None else ('d' if rw.done() else 'p')}",
             f"hb={int(ws._heartbeat_cb is not None)}", f"pg={int(ws._pong_response_cb is not None)}",
             f"nr={int(ws._need_heartbeat_reset)}", f"pt={int(ws._ping_task is not None)}",
